@@ -202,6 +202,7 @@ func rulesC18(c *Ctx) {
 	ruleEntriesToModifyRequest(c)
 	ruleElectionIDStores(c)
 	ruleCurrentElectionIDWriters(c)
+	ruleStateWriters(c, writersFluent)
 	ruleModifyVerbs(c)
 }
 
